@@ -890,7 +890,7 @@ class GhostTask:
         return f'<task {self.name}>'
 
 
-@harness('S4', targets='kopf._cogs.aiokits.aiotasks.stop', props=['C20'],
+@harness('S4', targets='kopf._cogs.aiokits.aiotasks.stop', props=['C20', 'C19'],
          clauses=['cancels_every_task', 'waits_until_none_pending', 'partition_kept', 'cancellation_propagates', 'empty_is_noop'],
          canaries=['canary.single_round'],
          trusted=['aiotasks.wait by contract S4w: returns a partition (done, pending) of the given tasks'],
@@ -972,7 +972,7 @@ def S4(vc):
     return ('stopped', n)
 
 
-@harness('S4w', targets='kopf._cogs.aiokits.aiotasks.wait', props=['C20'],
+@harness('S4w', targets='kopf._cogs.aiokits.aiotasks.wait', props=['C20', 'C09'],
          clauses=['empty_is_safe', 'delegates'], canaries=['canary.always_delegates'],
          trusted=['asyncio.wait: returns a partition (done, pending) of the given tasks; raises ValueError for an empty set'])
 def S4w(vc):
